@@ -66,7 +66,11 @@ void queue_body(const QCfg& c) {
     std::vector<std::vector<int>> pushed(c.producers), popped(c.consumer_pops.size());
     std::vector<int> try_popped;
     std::vector<std::thread> th;
-    auto note_size = [&]() { int s = static_cast<int>(q.m_queue.size()); if (s > maxsize) maxsize = s; };
+#ifdef VSCHED_FREE
+    auto note_size = [&]() { int s = static_cast<int>(q.size()); if (s > maxsize) maxsize = s; };      // locked: real threads
+#else
+    auto note_size = [&]() { int s = static_cast<int>(q.m_queue.size()); if (s > maxsize) maxsize = s; };   // no extra scheduling point
+#endif
     for (int p = 0; p < c.producers; ++p) {
         th.emplace_back([&, p] {
             for (int i = 0; i < c.per_producer; ++i) {
